@@ -45,6 +45,16 @@ structure Req where
 /-- The region object carried by a request with a fixed origin. -/
 def Req.region (q : Req) (o : Nat) : Region := ⟨o, q.size, q.cached, q.linker, q.decode⟩
 
+/-- Automatically generated names: `"master{:d}".format(len(self.masters))` and
+    `"slave{:d}".format(len(self.slaves))`.  Any naming scheme; generated names may collide with explicit ones
+    (a client may call `add_master(name="master2")`), which is exactly what the theorems have to survive. -/
+class AutoNames (ν : Type) where
+  master : Nat → ν
+  slave  : Nat → ν
+
+/-- Driver / examples: explicit names are small numbers, `master<k>` is `1000+k`, `slave<k>` is `2000+k`. -/
+instance : AutoNames Nat := ⟨(1000 + ·), (2000 + ·)⟩
+
 structure BusH (ν : Type) where
   aw        : Nat                    -- address_width
   dw        : Nat                    -- data_width
@@ -186,18 +196,22 @@ end BusH
 /-- Operations of a call history on a bus handler. -/
 inductive BusOp (ν : Type)
   | addRegion (name : ν) (q : Req)
-  | addSlave (name : ν) (q : Option Req)
-  | addMaster (name : ν)
+  | addSlave (name : Option ν) (q : Option Req)   -- `name = none`: automatic name `slave<len(slaves)>`
+  | addMaster (name : Option ν)                   -- `name = none`: automatic name `master<len(masters)>`
   | setIoCheck (b : Bool)          -- `soc.bus.io_regions_check = False` (done by `add_cpu` for `CPUNone`)
   deriving Repr
 
 namespace BusH
-variable {ν : Type} [DecidableEq ν]
+variable {ν : Type} [DecidableEq ν] [AutoNames ν]
 
+/-- The name is fixed (explicit or generated from the current number of masters/slaves) *before* the
+    "already declared" test, as in the Python code; `add_slave()` without name and region is refused. -/
 def apply (s : BusH ν) : BusOp ν → Except Err (BusH ν)
   | .addRegion n q => s.addRegion n q
-  | .addSlave n q => s.addSlave n q
-  | .addMaster n => s.addMaster n
+  | .addSlave n q =>
+    if n.isNone && q.isNone then .error .badArg
+    else s.addSlave (n.getD (AutoNames.slave s.slaves.length)) q
+  | .addMaster n => s.addMaster (n.getD (AutoNames.master s.masters.length))
   | .setIoCheck b => .ok { s with ioCheck := b }
 
 /-- One step of a history: a rejected request leaves the handler unchanged. -/
